@@ -85,7 +85,145 @@ def subtree(snap, case, i):
     return {k: v for k, v in snap.items() if k == pre or k.startswith(pre + "/")}
 
 
+# every path is absolute and under the session's own subtree: the sessions stay on disjoint paths
+# whatever USER / CWD / CDUP do to their working directories
+LOCK_POOL = ["PWD", "NOOP", "SYST", "TYPE I", "TYPE A", "MKD /s{i}/m{r}", "RMD /s{i}/m{r}", "CWD /s{i}/d1", "CWD /s{i}", "CDUP", "MLST /s{i}/a.bin", "MLST /s{i}/nope", "RNFR /s{i}/a.bin", "RNTO /s{i}/a2.bin", "RNFR /s{i}/a2.bin", "RNTO /s{i}/a.bin", "DELE /s{i}/b.bin", "REST 3", "EPSV", "PASV", "ABOR", "PBSZ 0", "PROT P", "USER anonymous", "USER u1", "PASS pw1", "PASS bad", "USER u2", "USER ghost", "FOO"]
+
+
+def gen_lockstep(seed):
+    rnd = random.Random(seed * 6151 + 19)
+    n = rnd.choice([2, 2, 3])
+    rounds = rnd.randint(3, 10)
+    # the same verb at the same instant in sessions whose state differs: one logged in, one not,
+    # one in the middle of a rename ...
+    common_verbs = [rnd.choice(LOCK_POOL) for _ in range(rounds)]
+    scripts = []
+    for i in range(n):
+        pre = rnd.choice([[], ["USER anonymous", "CWD /s{i}"], ["USER u1"], ["USER u1", "PASS pw1", "CWD /s{i}"], ["USER u2", "CWD /s{i}", "RNFR /s{i}/a.bin"], ["USER anonymous", "CWD /s{i}", "EPSV"]])
+        own = [c if rnd.random() < 0.6 else rnd.choice(LOCK_POOL) for c in common_verbs]
+        scripts.append({"pre": pre, "lines": own})
+    # per-user connection limits that correct accounting never reaches (one slot per session)
+    return {"kind": "lockstep", "seed": seed, "sessions": scripts, "scripts": ["lockstep"] * n, "user_limit": rnd.choice([None, n, n])}
+
+
+def _run_lockstep(case, only=None):
+    """All sessions write their k-th line in the same event-loop step of a zero-latency network,
+    so that the server reads them in the same iteration and their handlers advance in exact
+    lock-step; `only` = index of the session to run alone (reference)."""
+    from simftp.peers import PeerGone, RawPeer, ReplyTimeout
+    import asyncio
+
+    B = 16
+    tree = {}
+    n = len(case["sessions"])
+    for i in range(n):
+        tree.update(corpus.tree(f"/s{i}", B))
+    users = [dict(u, maximum_connections=case.get("user_limit")) for u in corpus.USERS]
+    sc = {"seed": case["seed"], "server": {"block_size": B, "wait_future_timeout": 5.0, "users": users}, "net": {"latency": [0.0, 0.0], "send_delay": 0.0, "accept_delay": [0.0, 0.0], "seg_mode": "whole"}, "fs": {"delay": None, "tree": tree}}
+    world = scenario.setup_world(sc)
+    out = {}
+    with world:
+        server = scenario.finish_setup(world, sc)
+        idx = [i for i in range(n) if only is None or i == only]
+        peers = {i: RawPeer(world, f"s{i}", reply_timeout=200.0) for i in idx}
+        got = {i: [] for i in idx}
+
+        def fmt(line, i, r):
+            return line.replace("{i}", str(i)).replace("{r}", str(r % 2))
+
+        async def one_reply(i):
+            try:
+                code, lines = await peers[i].reply(200.0)
+                return code + " " + " | ".join(lines)
+            except ReplyTimeout:
+                return "<no reply>"
+            except PeerGone:
+                return "<closed>"
+
+        async def connect(i):
+            await peers[i].connect()
+            for line in case["sessions"][i]["pre"]:
+                await peers[i].cmd(fmt(line, i, 0))
+
+        async def main():
+            await server.start("127.0.0.1", 2121)
+            for i in idx:
+                await world.spawn(connect(i), f"s{i}")
+            rounds = max(len(s["lines"]) for s in case["sessions"])
+            for r in range(rounds):
+                alive = [i for i in idx if r < len(case["sessions"][i]["lines"]) and not peers[i].writer.transport.is_closing() and (not got[i] or got[i][-1] not in ("<closed>", "<no reply>"))]
+                for i in alive:  # same step: no await between the writes
+                    line = fmt(case["sessions"][i]["lines"][r], i, r)
+                    peers[i].note("C", line)
+                    peers[i].writer.write((line + "\r\n").encode())
+                for i in alive:
+                    got[i].append(await one_reply(i))
+                await asyncio.sleep(0.5)
+            for i in idx:
+                peers[i].close()
+            await asyncio.sleep(1)
+            snap = {k: (None if v is None else bytes(v)) for k, v in world.snapshot().items()}
+            for i in idx:
+                out[i] = (got[i], {k: v for k, v in snap.items() if k == f"/s{i}" or k.startswith(f"/s{i}/")})
+            await asyncio.wait_for(server.close(), 1e4)
+
+        world.run(main())
+        if world.outcome not in ("ok",):
+            raise common.HarnessError(f"lock-step run failed: {world.outcome}: {world.error!r}")
+        meta = {"digest": world.digest([[tuple(x[1:]) for x in peers[i].transcript] for i in idx]), "vtime": world.loop.time() - 1000.0, "events": world.net.seq, "steps": world.loop.steps}
+    return out, meta
+
+
+_MASK = None
+
+
+def _mask(txt):
+    import re
+
+    return re.sub(r"\(\|\|\|\d+\|\)|\(\d+,\d+,\d+,\d+,\d+,\d+\)", "(P)", re.sub(r"(?i)(modify|create)=\d+;", "T;", txt))
+
+
+def run_lockstep_case(case):
+    viol = []
+    n = len(case["sessions"])
+    ref = {}
+    for i in range(n):
+        o, _ = _run_lockstep(case, only=i)
+        ref[i] = o[i]
+    together, meta = _run_lockstep(case)
+    same_verb_rounds = 0
+    rounds = max(len(s["lines"]) for s in case["sessions"])
+    for r in range(rounds):
+        verbs = [s["lines"][r].split()[0] for s in case["sessions"] if r < len(s["lines"])]
+        if len(verbs) > 1 and len(set(verbs)) < len(verbs):
+            same_verb_rounds += 1
+    for i in range(n):
+        a = [_mask(x) for x in together[i][0]]
+        b = [_mask(x) for x in ref[i][0]]
+        if a != b:
+            k = next((j for j, (x, y) in enumerate(zip(a, b)) if x != y), min(len(a), len(b)))
+            viol.append({"clause": "bystander-replies-differ", "subject": "lockstep", "detail": f"session s{i} (pre {case['sessions'][i]['pre']}, lines {case['sessions'][i]['lines']}) sending its commands at the same instants as the other sessions: reply {k} was {a[k] if k < len(a) else None!r}, alone it is {b[k] if k < len(b) else None!r}; others: {[s['lines'] for j, s in enumerate(case['sessions']) if j != i]}"[:900]})
+        if together[i][1] != ref[i][1]:
+            viol.append({"clause": "bystander-tree-differs", "subject": "lockstep", "detail": f"session s{i}'s subtree differs from its solo run: {sorted(set(together[i][1]) ^ set(ref[i][1]))[:4]}"})
+    res = {
+        "digest": meta["digest"],
+        "nontrivial": same_verb_rounds > 0,
+        "vtime": meta["vtime"],
+        "events": meta["events"],
+        "steps": meta["steps"],
+        "outcome": "ok",
+        "counters": {"mode.lockstep": 1, "probe.same_verb_same_instant_rounds": same_verb_rounds},
+        "groups": {},
+        "violations": viol,
+    }
+    if case.get("want_sample"):
+        res["sample"] = {"case": case, "replies_s0": together[0][0]}
+    return res
+
+
 def run_case(case):
+    if case.get("kind") == "lockstep":
+        return run_lockstep_case(case)
     n = len(case["scripts"])
     viol = []
     # ---- solo references
@@ -201,6 +339,16 @@ def minimise(case, violation):
 
     cur = copy.deepcopy(case)
     cur.pop("want_sample", None)
+    if cur.get("kind") == "lockstep":
+        rounds = max(len(x["lines"]) for x in cur["sessions"])
+        for r in range(rounds - 1, -1, -1):
+            trial = copy.deepcopy(cur)
+            for x in trial["sessions"]:
+                if r < len(x["lines"]):
+                    del x["lines"][r]
+            if all(x["lines"] for x in trial["sessions"]) and bad(trial):
+                cur = trial
+        return cur, violation
     if len(cur["scripts"]) == 3:
         for drop in (2, 1):
             trial = copy.deepcopy(cur)
@@ -248,7 +396,13 @@ def main(argv=None):
     deadline = time.time() + (a.budget or (75 if quick else 1500))
     n = 1500 if quick else 200000
     with common.Pool() as pool:
-        cases = common.with_samples((gen_case(a.seed * 1_000_000 + i) for i in range(n)), 2)
+        def gen():
+            for i in range(n):
+                yield gen_case(a.seed * 1_000_000 + i)
+                if i % 2 == 0:
+                    yield gen_lockstep(a.seed * 1_000_000 + i)
+
+        cases = common.with_samples(gen(), 3)
         for case, res in pool.map(run_case, cases, deadline=deadline, chunksize=4):
             ev.add_run(res)
             for v in res["violations"]:
